@@ -29,6 +29,8 @@ type mutant struct {
 	Expect string // rule id that must report
 	Quick  bool
 	Why    string // the realistic change it imitates
+	Append string // text appended to the file (helper functions a refactoring introduces)
+	Benign bool   // behaviour-preserving variant: NO rule of any property may report
 }
 
 var mutants []mutant
@@ -66,6 +68,15 @@ func nthIndex(s, sub string, n int) int {
 func runSelfTest(c *Ctx, def *propDef, repo, verif string) (bool, any) {
 	var todo []mutant
 	for _, m := range mutants {
+		if m.Benign {
+			// benign variants are run against every property (thorough), a few of them on every run
+			if c.Tier != "thorough" && !m.Quick {
+				continue
+			}
+			m.Prop = def.ID
+			todo = append(todo, m)
+			continue
+		}
 		if m.Prop != def.ID {
 			continue
 		}
@@ -99,10 +110,14 @@ func runSelfTest(c *Ctx, def *propDef, repo, verif string) (bool, any) {
 			ok = false
 			fmt.Printf("SELFTEST-MISS rule=%s mutant=%s (%s): reported %v\n", r.Expect, r.ID, r.Why, r.Reported)
 		}
+		if r.Status == "FALSE-ALARM" {
+			ok = false
+			fmt.Printf("SELFTEST-FALSE-ALARM variant=%s (%s): reported %v\n", r.ID, r.Why, r.Reported)
+		}
 	}
 	sort.Slice(results, func(i, j int) bool { return results[i].ID < results[j].ID })
-	fmt.Printf("%s self-test: %d mutant(s): %d detected, %d missed, %d skipped, %d invalid\n", def.ID, len(results), counts["detected"], counts["MISSED"], counts["skipped (target absent)"], counts["invalid (does not type-check)"])
-	return ok, map[string]any{"mutants": results, "detected": counts["detected"], "missed": counts["MISSED"], "skipped": counts["skipped (target absent)"], "invalid": counts["invalid (does not type-check)"],
+	fmt.Printf("%s self-test: %d variant(s): %d detected, %d missed, %d benign quiet, %d false alarm(s), %d skipped, %d invalid\n", def.ID, len(results), counts["detected"], counts["MISSED"], counts["quiet (benign)"], counts["FALSE-ALARM"], counts["skipped (target absent)"], counts["invalid (does not type-check)"])
+	return ok, map[string]any{"mutants": results, "detected": counts["detected"], "missed": counts["MISSED"], "benign_quiet": counts["quiet (benign)"], "false_alarms": counts["FALSE-ALARM"], "skipped": counts["skipped (target absent)"], "invalid": counts["invalid (does not type-check)"],
 		"how": "each mutant is an in-memory overlay of one source file of the current tree, analysed in a separate process; the named rule must report"}
 }
 
@@ -120,7 +135,7 @@ func runMutant(exe, repo, verif string, m mutant) mutantResult {
 		res.Status = "skipped (target absent)"
 		return res
 	}
-	mut := s[:idx] + m.New + s[idx+len(m.Old):]
+	mut := s[:idx] + m.New + s[idx+len(m.Old):] + m.Append
 	ov, _ := json.Marshal(map[string]string{path: mut})
 	tmp, err := os.CreateTemp("", "varmqlint-mutant-*.json")
 	if err != nil {
@@ -149,6 +164,14 @@ func runMutant(exe, repo, verif string, m mutant) mutantResult {
 		res.Reported = append(res.Reported, f.Rule+" "+f.Func+": "+f.Construct)
 		if f.Rule == m.Expect {
 			res.Status = "detected"
+		}
+	}
+	if m.Benign {
+		res.Expect = "(nothing)"
+		if len(fs) == 0 {
+			res.Status = "quiet (benign)"
+		} else {
+			res.Status = "FALSE-ALARM"
 		}
 	}
 	if res.Status == "" {
